@@ -166,4 +166,251 @@ theorem amountOwed_spec {u s r o : Int} {d : Nat} (h : amountOwed u s r d = .ok 
           exact owed_chain (by unfold pdOfDec at hq'; exact hq'.1) (by unfold pdOfDec at how'; exact how'.1)
             hod'.1 hx.1 hs hr
 
+/-! ### lists -/
+
+def All2 {α β : Type} (P : α → β → Prop) : List α → List β → Prop
+  | [], [] => True
+  | a :: as, b :: bs => P a b ∧ All2 P as bs
+  | _, _ => False
+
+theorem All2.imp {α β : Type} {P Q : α → β → Prop} :
+    ∀ {l : List α} {m : List β}, (∀ a ∈ l, ∀ b, P a b → Q a b) → All2 P l m → All2 Q l m
+  | [], [], _, _ => trivial
+  | [], _ :: _, _, h => h.elim
+  | _ :: _, [], _, h => h.elim
+  | a :: as, b :: bs, hpq, h =>
+    ⟨hpq a (List.mem_cons_self ..) b h.1,
+     All2.imp (fun x hx y => hpq x (List.mem_cons_of_mem _ hx) y) h.2⟩
+
+theorem all2_map_right {α β : Type} {P : α → β → Prop} (f : α → β) :
+    ∀ (l : List α), (∀ a ∈ l, P a (f a)) → All2 P l (l.map f)
+  | [], _ => trivial
+  | a :: as, h => ⟨h a (List.mem_cons_self ..), all2_map_right f as (fun x hx => h x (List.mem_cons_of_mem _ hx))⟩
+
+/-- What a redeemer of `u` out of `s` units may receive from a reserve `r` of divisibility `d`. -/
+def OwedOk (u s : Int) (rd : Int × Nat) (o : Int) : Prop :=
+  0 ≤ o ∧ o * s ≤ u * rd.1 ∧ unitOf rd.2 ∣ o ∧ (u ≤ s → o ≤ rd.1)
+
+theorem amountsOwed_all2 {u s : Int} {rs : List (Int × Nat)} {os : List Int}
+    (h : amountsOwed u s rs = .ok os) (hu : 0 ≤ u) (hs : 0 < s) (hr : ∀ x ∈ rs, 0 ≤ x.1) :
+    All2 (OwedOk u s) rs os := by
+  induction rs generalizing os with
+  | nil => simp only [amountsOwed] at h; cases h; trivial
+  | cons x rest ih =>
+    obtain ⟨r, d⟩ := x
+    simp only [amountsOwed] at h
+    split at h
+    · cases h
+    · rename_i o ho
+      split at h
+      · cases h
+      · rename_i os' hos
+        cases h
+        have hr0 : 0 ≤ r := hr (r, d) (List.mem_cons_self ..)
+        have sp := amountOwed_spec ho hu hs hr0
+        refine ⟨⟨sp.1, sp.2.1, sp.2.2, ?_⟩, ih hos (fun x hx => hr x (List.mem_cons_of_mem _ hx))⟩
+        intro hus
+        have h1 : u * r ≤ s * r := mul_le_mul_of_nonneg_right hus hr0
+        have sp2 : o * s ≤ u * r := sp.2.1
+        have h2 : o * s ≤ r * s := by linarith [mul_comm s r]
+        exact le_of_mul_le_mul_right h2 hs
+
+theorem amountOwed_err {u s r : Int} {d : Nat} {e : Err} (h : amountOwed u s r d = .error e) :
+    e = .overflow := by
+  unfold amountOwed at h
+  split at h
+  · cases h; rfl
+  · split at h
+    · cases h; rfl
+    · split at h
+      · cases h; rfl
+      · rename_i od _
+        cases hd : decRound od d .toNegInf with
+        | none => rw [hd] at h; simp only [orErr] at h; cases h; rfl
+        | some x => rw [hd] at h; simp only [orErr] at h; cases h
+
+theorem amountsOwed_err {u s : Int} : ∀ (rs : List (Int × Nat)) {e : Err},
+    amountsOwed u s rs = .error e → e = .overflow
+  | [], _, h => by simp [amountsOwed] at h
+  | (r, d) :: rest, e, h => by
+    simp only [amountsOwed] at h
+    split at h
+    · rename_i e' he; cases h; exact amountOwed_err he
+    · split at h
+      · rename_i e' he; cases h; exact amountsOwed_err rest he
+      · cases h
+
+theorem amountsOwed_ne_insufficient (u s : Int) (rs : List (Int × Nat)) :
+    ¬ amountsOwed u s rs = .error .vaultInsufficient := by
+  intro h; have := amountsOwed_err rs h; cases this
+
+theorem sub_nonneg_of_all2 {u s : Int} (hus : u ≤ s) :
+    ∀ (rs : List Int) (ds : List Nat) (os : List Int), All2 (OwedOk u s) (rs.zip ds) os →
+      ∀ x ∈ subLists rs os, 0 ≤ x
+  | [], _, _, _ => by intro x hx; simp [subLists] at hx
+  | r :: rs', [], os, h => by
+    cases os with
+    | nil => intro x hx; simp [subLists] at hx
+    | cons o os' => simp [All2] at h
+  | r :: rs', d :: ds', os, h => by
+    cases os with
+    | nil => simp [All2] at h
+    | cons o os' =>
+      simp only [List.zip_cons_cons, All2] at h
+      intro x hx
+      simp only [subLists, List.mem_cons] at hx
+      rcases hx with rfl | hx
+      · have h3 : o ≤ r := h.1.2.2.2 hus
+        linarith
+      · exact sub_nonneg_of_all2 hus rs' ds' os' h.2 x hx
+
+theorem redeem_ne_insufficient {p : Pool} {u : Int} (hu : 0 < u) (hus : u ≤ p.supply)
+    (hr : ∀ r ∈ p.reserves, 0 ≤ r) : redeem p u ≠ .error .vaultInsufficient := by
+  unfold redeem
+  split
+  · rename_i e he
+    intro hc
+    cases hc
+    -- amountsOwed never reports vaultInsufficient
+    exact absurd he (amountsOwed_ne_insufficient _ _ _)
+  · rename_i os hos
+    have hall := amountsOwed_all2 hos (le_of_lt hu) (lt_of_lt_of_le hu hus)
+      (fun x hx => hr x.1 (List.of_mem_zip hx).1)
+    have hnn := sub_nonneg_of_all2 hus p.reserves p.divs os hall
+    split
+    · intro hc; cases hc
+    · split
+      · rename_i hany
+        exfalso
+        rw [List.any_eq_true] at hany
+        obtain ⟨x, hx, hlt⟩ := hany
+        have := hnn x hx
+        simp only [decide_eq_true_eq] at hlt
+        linarith
+      · intro hc; cases hc
+
+/-! ### minting -/
+
+theorem mintUnits_spec {s u s2 : Int} (h : mintUnits s u = .ok s2) : s2 = s + u ∧ 0 ≤ u := by
+  unfold mintUnits at h
+  split at h
+  · cases h
+  · split at h
+    · cases h
+    · split at h
+      · cases h
+      · cases h; exact ⟨rfl, by omega⟩
+
+/-! ### one resource pool -/
+
+/-- units minted by the one-resource pool in normal operation are at most pro rata: `u * r ≤ c * s` -/
+theorem oneUnits_spec {s r c u : Int} (h : oneUnits s r c = .ok u) (hs : 0 < s) (hr : 0 ≤ r) (hc : 0 ≤ c) :
+    0 < r ∧ u * r ≤ c * s := by
+  have hp18 := P18_pos
+  have hp36 := P36_pos
+  have hs' : pdOfDec s > 0 := pdOfDec_pos hs
+  unfold oneUnits at h
+  simp only [hs', decide_true] at h
+  by_cases hr0 : pdOfDec r > 0
+  · simp only [hr0, decide_true] at h
+    have hrpos : 0 < r := by
+      unfold pdOfDec at hr0
+      by_contra hn
+      have : r ≤ 0 := not_lt.mp hn
+      have : r * P18 ≤ 0 := mul_nonpos_of_nonpos_of_nonneg this (le_of_lt hp18)
+      linarith
+    refine ⟨hrpos, ?_⟩
+    cases hd : pdDiv (pdOfDec c) (pdOfDec r) with
+    | none => rw [hd] at h; cases h
+    | some q =>
+      rw [hd] at h
+      simp only at h
+      cases hm : pdMul q (pdOfDec s) with
+      | none => rw [hm] at h; simp only [orErr] at h; cases h
+      | some u' =>
+        rw [hm] at h
+        simp only [orErr] at h
+        cases ht : pdToDec u' with
+        | none => rw [ht] at h; cases h
+        | some ud =>
+          rw [ht] at h
+          simp only at h
+          split at h
+          · cases h
+          · cases h
+            have d1 := pdDiv_spec hd (pdOfDec_nonneg hc) hr0
+            have d2 := pdMul_spec hm d1.2.2 (le_of_lt hs')
+            have d3 := pdToDec_spec ht d2.2.2
+            unfold pdOfDec at d1 d2
+            -- u*P18 ≤ u' ; u'*P36 ≤ q*(s*P18) ; q*(r*P18) ≤ c*P18*P36
+            have e1 : u * P18 * P36 ≤ u' * P36 := mul_le_mul_of_nonneg_right d3.1 (le_of_lt hp36)
+            have e2 : u * P18 * P36 * r ≤ q * (s * P18) * r :=
+              mul_le_mul_of_nonneg_right (le_trans e1 d2.1) hr
+            have e3 : q * (r * P18) * s ≤ c * P18 * P36 * s := mul_le_mul_of_nonneg_right d1.1 (le_of_lt hs)
+            have key : (u * r) * (P18 * P36) ≤ (c * s) * (P18 * P36) := by nlinarith
+            exact le_of_mul_le_mul_right key (mul_pos hp18 hp36)
+  · simp only [hr0, decide_false] at h
+    cases h
+
+theorem oneUnits_empty {c u : Int} (h : oneUnits 0 0 c = .ok u) (hc : 0 ≤ c) : u = c := by
+  unfold oneUnits at h
+  simp only [pdOfDec, Int.zero_mul, gt_iff_lt, lt_self_iff_false, decide_false] at h
+  cases ht : pdToDec (c * P18) with
+  | none => rw [ht] at h; cases h
+  | some ud =>
+    rw [ht] at h
+    simp only at h
+    split at h
+    · cases h
+    · cases h
+      have d3 := pdToDec_spec ht (mul_nonneg hc (le_of_lt P18_pos))
+      have hp := P18_pos
+      have a1 : u ≤ c := le_of_mul_le_mul_right d3.1 hp
+      have a2 : c < u + 1 := lt_of_mul_lt_mul_right d3.2.1 (le_of_lt hp)
+      omega
+
+theorem one_no_gain {s r c o : Int} {d : Nat} {res : Contributed}
+    (h : oneContribute s r c = .ok res) (hs : 0 ≤ s) (hr : 0 ≤ r) (hc : 0 ≤ c)
+    (hreg : 0 < s ∨ r = 0)
+    (ho : amountOwed (res.supply - s) res.supply (r + c) d = .ok o) : o ≤ c := by
+  unfold oneContribute at h
+  split at h
+  · cases h
+  · rename_i hc0
+    cases hu : oneUnits s r c with
+    | error e => rw [hu] at h; cases h
+    | ok u =>
+      rw [hu] at h
+      simp only at h
+      cases hm : mintUnits s u with
+      | error e => rw [hm] at h; cases h
+      | ok s2 =>
+        rw [hm] at h
+        cases h
+        obtain ⟨hs2, hu0⟩ := mintUnits_spec hm
+        simp only at ho
+        have hcpos : 0 < c := lt_of_le_of_ne hc (Ne.symm hc0)
+        rcases lt_or_eq_of_le hs with hspos | hs0
+        · -- normal operation
+          obtain ⟨hrpos, hur⟩ := oneUnits_spec hu hspos hr hc
+          rw [hs2] at ho
+          have e : s + u - s = u := by ring
+          rw [e] at ho
+          have sp := amountOwed_spec ho hu0 (by linarith) (by linarith)
+          have h4 : o * (s + u) ≤ u * (r + c) := sp.2.1
+          have hsu : 0 < s + u := by linarith
+          have key : o * (s + u) ≤ c * (s + u) := by nlinarith
+          exact le_of_mul_le_mul_right key hsu
+        · -- empty pool
+          subst hs0
+          have hr0 : r = 0 := by rcases hreg with h | h; exact absurd h (lt_irrefl 0); exact h
+          subst hr0
+          have huc := oneUnits_empty hu hc
+          subst huc
+          rw [hs2] at ho
+          simp only [Int.zero_add, Int.sub_zero] at ho
+          have sp := amountOwed_spec ho hc hcpos hc
+          have h4 : o * u ≤ u * u := sp.2.1
+          exact le_of_mul_le_mul_right h4 hcpos
+
 end Radix.Pool
